@@ -213,6 +213,8 @@ def objs(struct, system, mom):
 def run_unary(F, system, mom, layouts, seed, extras_layouts=("ak-jagged", "ak-record", "ak-flat", "ak-rawzip", "ak-regular")):
     d = len(system) + 1
     for layout in layouts:
+        if layout.endswith("-spacelike") and d < 4:
+            continue
         rng = random.Random(hash((seed, system, mom, layout)) & 0xFFFFFFF)
         ext = layout in extras_layouts
         if ext and layout in ("ak-jagged", "ak-record"):
@@ -222,6 +224,8 @@ def run_unary(F, system, mom, layouts, seed, extras_layouts=("ak-jagged", "ak-re
         for name, op in unary_ops(d, mom):
             if OP_FILTER is not None and not OP_FILTER(name):
                 continue
+            if layout.endswith("-spacelike") and name in ("numpy.sqrt", "numpy.cbrt"):
+                continue        # fractional powers of a negative tau^2: outside the domain of the definition (Python floats give complex numbers, NumPy gives NaN)
             if layout == "ak-record" and name.startswith("allclose"):
                 continue        # allclose is a method of arrays; a record is a single vector
             if layout.startswith("ak") and name.startswith("numpy.isclose"):
